@@ -253,6 +253,13 @@ MUTATIONS += [
     dict(id="C14-extra-not-reported", prop="C14", file=RS, old="                (false, _, _) => {\n                    additional_existing = true;", new="                (false, _, _) => {\n                    additional_existing = is_dir;"),
 ]
 
+# ---- C14 collect_and_prepare: merge walk
+MUTATIONS += [
+    dict(id="C14-merge-equal-node-skipped", prop="C14", file=RS, old="                        process_node(path, node, true)?;\n                        next_node = node_streamer.next().transpose()?;", new="                        if !node.is_special() {\n                            process_node(path, node, true)?;\n                        }\n                        next_node = node_streamer.next().transpose()?;"),
+    dict(id="C14-merge-less-greater-swapped", prop="C14", file=RS, old="                match destination.path().cmp(&dest.path(path)) {", new="                match dest.path(path).cmp(destination.path()) {"),
+    dict(id="C14-merge-equal-always-replaced", prop="C14", file=RS, old="                            || node.is_special()\n                        {", new="                            || node.is_special()\n                            || node.is_file()\n                        {"),
+]
+
 HARMLESS = [
     dict(id="H-C05-trees-symlink-continue", prop="C05", file=CK, old="        for node in tree.nodes {\n            match node.node_type {", new="        for node in tree.nodes {\n            if node.node_type == NodeType::Symlink {\n                continue;\n            }\n            match node.node_type {"),
 ]
